@@ -5,6 +5,8 @@
 
 package sem
 
+import "strings"
+
 //@ config MaxInputLength
 //@ domain MaxInputLength >= 0
 //@ config Formatter = DefaultFormatter
@@ -316,6 +318,7 @@ func lemmaC06Version(v, w Ver) (r int) {
 //@   requires 0 <= diff && diff <= len(x) && diff <= len(y) && !(diff == len(x) && diff == len(y))
 //@   requires (forall k in 0..diff :: x[k] == y[k]) && (diff < len(x) && diff < len(y) ==> x[diff] != y[diff])
 //@   ensures [C14.antisym] fwd == -bwd
+//@   ensures [C14.antisym] compareIdentifiers(x, y, diff) == -compareIdentifiers(y, x, diff)
 
 func lemmaC14SuffixAntisym(x, y string) (fwd, bwd int) {
 	return comparePreReleaseSuffix(x, y), comparePreReleaseSuffix(y, x)
@@ -324,6 +327,52 @@ func lemmaC14SuffixAntisym(x, y string) (fwd, bwd int) {
 func lemmaC14IdentAntisym(x, y string, diff int) (fwd, bwd int) {
 	lemmaC14SuffixAntisym(x[diff:], y[diff:])
 	return compareIdentifiers(x, y, diff), compareIdentifiers(y, x, diff)
+}
+
+// C14: swapping two pre-release texts of equal length negates the result (the other lengths follow from
+// DefaultComparePreRelease's contract alone)
+//@ func lemmaC14SameStart
+//@   lemma
+//@   requires 0 <= i && i <= len(a) && i <= len(b) && forall k in 0..i :: a[k] == b[k]
+//@   ensures [C14.antisym] s1 == s2
+//@ func lemmaC14PreAntisym
+//@   lemma
+//@   requires len(a) == len(b) && 0 <= i && i < len(a) && i == firstDiff(a, b)
+//@   ensures [C14.antisym] fwd == -bwd
+//@   ensures [C14.antisym] comparePreRelease(a, b) == -comparePreRelease(b, a)
+// for every pair of pre-release texts (i names the first difference, which always exists)
+//@ func lemmaC14DefaultAntisym
+//@   lemma
+//@   requires i == firstDiff(a, b)
+//@   ensures [C14.antisym] fwd == -bwd
+//@   ensures [C14.antisym] DefaultComparePreRelease(a, b) == -DefaultComparePreRelease(b, a)
+// and for every pair of versions: v.Compare(w) == -w.Compare(v)
+//@ func lemmaC14Antisym
+//@   lemma
+//@   requires i == firstDiff(v.PreRelease, w.PreRelease)
+//@   ensures [C14.antisym] fwd == -bwd
+
+func lemmaC14SameStart(a, b string, i int) (s1, s2 int) {
+	return strings.LastIndexByte(a[:i], '.'), strings.LastIndexByte(b[:i], '.')
+}
+
+func lemmaC14DefaultAntisym(a, b string, i int) (fwd, bwd int) {
+	if len(a) == len(b) && i < len(a) {
+		lemmaC14PreAntisym(a, b, i)
+	}
+	return DefaultComparePreRelease(a, b), DefaultComparePreRelease(b, a)
+}
+
+func lemmaC14Antisym(v, w Ver, i int) (fwd, bwd int) {
+	lemmaC14DefaultAntisym(v.PreRelease, w.PreRelease, i)
+	return v.Compare(w), w.Compare(v)
+}
+
+func lemmaC14PreAntisym(a, b string, i int) (fwd, bwd int) {
+	lemmaC14SameStart(a, b, i)
+	start := strings.LastIndexByte(a[:i], '.') + 1
+	lemmaC14IdentAntisym(identifier(a[start:]), identifier(b[start:]), i-start)
+	return comparePreRelease(a, b), comparePreRelease(b, a)
 }
 
 func lemmaC06Ordered(a, b string) (r int) {
